@@ -164,6 +164,17 @@ def run(ctx):
         elif uses_offset != (role == 'arrival'):
             why = 'arrival day offset applied to the wrong instant (or not applied)'
         ctx.ob('C13-R3', sch, f'{var} = {norm(d)[:70]}', ok, why, line=d.lineno)
+        # wall-clock arithmetic first, localisation last: a pandas Timestamp that already carries a zone adds
+        # *elapsed* time, so anything added after .replace(tzinfo=...) is an hour off across a DST change
+        outer = d
+        last = isinstance(outer, ast.Call) and isinstance(outer.func, ast.Attribute) and outer.func.attr == 'replace' \
+            and any(k.arg == 'tzinfo' for k in outer.keywords)
+        arith_after = [x for x in ast.walk(d) if isinstance(x, ast.BinOp) and any(
+            isinstance(y, ast.keyword) and y.arg == 'tzinfo' for side in (x.left, x.right) for y in ast.walk(side))]
+        ctx.ob('C13-R3', sch, f'{var}: zone attached after all wall-clock arithmetic', last and not arith_after,
+               'the outermost operation is .replace(tzinfo=ZoneInfo(...))' if last and not arith_after else
+               'time is added to an instant that already carries its zone (elapsed-time arithmetic across a DST change)',
+               line=d.lineno)
         hm = [norm(k.value) for c in calls_in(d) if call_name(c) == 'timedelta' for k in c.keywords if k.arg in ('hours', 'minutes')]
         okh = sorted(hm) == sorted([f'{role}_time.hour', f'{role}_time.minute'])
         ctx.ob('C13-R3', sch, f'{var} hours/minutes = {hm}', okh,
